@@ -48,7 +48,7 @@ def cq(x):
     return f"(qq ({fr.numerator}) {fr.denominator})" if fr.numerator < 0 else f"(qq {fr.numerator} {fr.denominator})"
 
 
-def write_cases(casedir, prefix, runner, variant, cases, chunk=400, preamble=""):
+def write_cases(casedir, prefix, runner, variant, cases, chunk=400, preamble="", ctype="case", summary="summary"):
     """cases: list of Coq terms of type `case`; one file per chunk"""
     files = []
     for k in range(0, max(len(cases), 1), chunk):
@@ -59,8 +59,8 @@ def write_cases(casedir, prefix, runner, variant, cases, chunk=400, preamble="")
         with open(p, "w") as f:
             f.write("From Coq Require Import ZArith List Bool QArith Qcanon.\n")
             f.write(f"From JV Require Import Kit.Field Kit.GenTypes {variant}.{runner}.\nImport ListNotations.\n{preamble}\n")
-            f.write("Definition cases : list case := [\n" + ";\n".join(part) + "\n].\n")
-            f.write("Eval vm_compute in (summary cases).\n")
+            f.write(f"Definition cases : list {ctype} := [\n" + ";\n".join(part) + "\n].\n")
+            f.write(f"Eval vm_compute in ({summary} cases).\n")
         files.append(p)
     return files
 
